@@ -129,7 +129,7 @@ class Env(object):
         self.work = pathlib.Path(work)
         rng = np.random.default_rng(seed)
         self.tmp = self.work / 'tmp'
-        self.tmp.mkdir()
+        self.tmp.mkdir(parents=True, exist_ok=True)
         self.ref = pw.make_reference(rng, self.work, n_levels=3,
                                      n_leaves=n_leaves, n_genes=n_genes,
                                      cells_per_leaf=(8, 12))
